@@ -107,6 +107,10 @@ class Scheduler:
         self.deadlock = None
         self.max_threads = 0
         self.preempted = False
+        # line-level preemption: every source line executed inside the
+        # package under test by a simulated thread is a yield point
+        self.line = bool(spec.get('line'))
+        self.line_prefix = spec.get('line_prefix')
         self.main = SimThread(0, self)
         self.threads.append(self.main)
         self.by_ident[threading.get_ident()] = self.main
@@ -119,6 +123,25 @@ class Scheduler:
                 self.pct_changes.add(self.rng.randrange(1, n))
 
     # ------------------------------------------------------------------
+    def _tracer(self, frame, event, arg):
+        if event != 'call':
+            return None
+        fn = frame.f_code.co_filename
+        if not fn.startswith(self.line_prefix):
+            return None
+        return self._line_tracer
+
+    def _line_tracer(self, frame, event, arg):
+        if event == 'line' and len(self.threads) > 1 and \
+                self.deadlock is None:
+            self.yield_point('line', frame.f_lineno)
+        return self._line_tracer
+
+    def trace_on(self):
+        if self.line and self.line_prefix:
+            import sys
+            sys.settrace(self._tracer)
+
     def new_lock_id(self):
         self.lock_ids += 1
         return self.lock_ids
@@ -245,6 +268,7 @@ class Scheduler:
             def body(t=t, fn=fn):
                 self.by_ident[threading.get_ident()] = t
                 t.sem.acquire()
+                self.trace_on()
                 try:
                     if self.deadlock is None:
                         fn()
@@ -290,6 +314,7 @@ class Scheduler:
         def body():
             self.by_ident[threading.get_ident()] = t
             t.sem.acquire()
+            self.trace_on()
             try:
                 if self.deadlock is None:
                     fn()
@@ -301,6 +326,7 @@ class Scheduler:
         t.real = threading.Thread(target=body, daemon=True)
         t.real.start()
         self.max_threads = max(self.max_threads, len(self.threads))
+        self.trace_on()        # the spawning thread goes on running
         self.yield_point('spawn', t.tid)
         return t
 
